@@ -957,6 +957,21 @@ def main():
         if "exercise_models" in acts:
             po["exercise_models"] = exercise_models(job, p)
         out["packages"][p["pkg"]] = po
+    if "core_symbols" in acts:
+        missing = {}
+        for g, mods in (job.get("core_symbols") or {}).items():
+            miss = []
+            for m, names in mods.items():
+                try:
+                    mod = importlib.import_module(m)
+                except BaseException as e:  # noqa
+                    miss.append(f"{m} (module import fails: {type(e).__name__}: {str(e)[:100]})")
+                    continue
+                for n in names:
+                    if not hasattr(mod, n):
+                        miss.append(f"{m}.{n}")
+            missing[g] = miss
+        out["core_symbols_missing"] = missing
     out["generator_importable"] = False
     try:
         importlib.import_module(BLOCKED)
